@@ -8,6 +8,7 @@ import json
 import multiprocessing
 import os
 import re
+import shutil
 import subprocess
 import sys
 import tempfile
@@ -86,8 +87,180 @@ def _to_smt2(query) -> str:
     return s.to_smt2()
 
 
+class _Watchdog:
+    """z3's `timeout` is a soft limit: a timer thread sets a cancel flag that the search has to notice.  Under load the
+    model-based quantifier instantiation of z3 5.1.0 was observed not to notice it (C19 `closed-elems#2`: three pool
+    workers spinning in smt::model_checker::check -> theory_array_base::propagate for > 1000 s with a 20 s timeout,
+    timer thread idle).  Every in-process check() of a pool worker is therefore guarded by a hard deadline: when it is
+    overrun the worker reports the obligation as hung and exits; the scheduler replaces the worker and re-runs the
+    obligation with the command-line solvers only, whose time limits kill the process."""
+
+    def __init__(self, conn):
+        self.conn = conn
+        self.idx = None
+        self.deadline = None
+        import threading
+
+        self.thread = threading.Thread(target=self._run, daemon=True)
+        self.thread.start()
+
+    def _run(self):
+        while True:
+            time.sleep(0.5)
+            d = self.deadline
+            if d is not None and time.time() > d:
+                try:
+                    self.conn.send({'idx': self.idx, 'hung': True})
+                except Exception:
+                    pass
+                os._exit(17)
+
+
+_WD: Optional[_Watchdog] = None  # set in pool workers only
+
+
+def _guarded_check(solver, soft_ms):
+    """solver.check() under the worker's hard deadline (1.5 x soft timeout + 15 s); ctypes releases the GIL during the
+    call, so the watchdog thread runs while z3 does."""
+    if _WD is None:
+        return solver.check()
+    _WD.deadline = time.time() + 1.5 * soft_ms / 1000.0 + 15
+    try:
+        return solver.check()
+    finally:
+        _WD.deadline = None
+
+
+def _solve_cli_only(job):
+    """Second chance for an obligation whose in-process solve overran its hard deadline: cvc5, then the z3 5.1.0 binary in
+    fresh processes (other seeds, larger budgets), all under time limits that end the process."""
+    idx, smt2, expect, z3_ms, cvc5_s = job[:5]
+    t0 = time.time()
+    out = {'idx': idx, 'res': 'unknown', 'backend': '', 'detail': 'in-process z3 overran its hard deadline (soft timeout ignored)'}
+    z3_bin = shutil.which('z3-new') or '/usr/bin/z3'
+    if expect == 'sat':
+        # vacuity / reachability / canary: as in-process, the full query first (short budget), then its quantifier-free part
+        r, d = run_z3_cli(smt2, 10, binary=z3_bin)
+        if r in ('sat', 'unsat'):
+            out.update(res=r, backend='%s (separate process, after in-process z3 ignored its timeout)' % os.path.basename(z3_bin))
+        else:
+            fs = z3.parse_smt2_string(smt2)
+            conj = []
+            for f in fs:
+                conj.extend(_flatten_and(f))
+            qf = [c for c in conj if not _has_quantifier(c)]
+            r, d2 = run_z3_cli(_to_smt2(z3.And(*qf)) if qf else '(check-sat)', 60, binary=z3_bin)
+            if r == 'sat':
+                out.update(res='sat', backend='%s (separate process, after in-process z3 ignored its timeout; quantifier-free part: %d of %d conjuncts)' % (os.path.basename(z3_bin), len(qf), len(conj)))
+            else:
+                out['detail'] += ' | full: %s | quantifier-free part: %s' % (d[:100], d2[:100])
+        out['seconds'] = time.time() - t0
+        return out
+    attempts = [('z3-cli', 7, 2), ('cvc5', 0, 0), ('z3-cli', 13, 2), ('z3-cli', 0, 6)]
+    for kind, rs, mult in attempts:
+        if kind == 'cvc5':
+            if cvc5_s <= 0:
+                continue
+            r, d = run_cvc5(smt2, cvc5_s)
+            name = 'cvc5-cli'
+        else:
+            r, d = run_z3_cli(smt2, max(1, mult * z3_ms // 1000), binary=z3_bin, extra=('smt.random_seed=%d' % rs,))
+            name = '%s seed %d' % (os.path.basename(z3_bin), rs)
+        if r in ('sat', 'unsat'):
+            out['res'] = r
+            out['backend'] = '%s (separate process, after in-process z3 ignored its timeout)' % name
+            break
+        out['detail'] += ' | %s: %s' % (name, d[:120])
+    out['seconds'] = time.time() - t0
+    return out
+
+
+def _worker_loop(conn):
+    global _WD
+    _WD = _Watchdog(conn)
+    while True:
+        try:
+            job = conn.recv()
+        except EOFError:
+            break
+        if job is None:
+            break
+        _WD.idx = job[0]
+        try:
+            out = _solve_worker(job)
+        except Exception as e:  # never lose a job
+            out = {'idx': job[0], 'res': 'unknown', 'backend': '', 'detail': 'worker exception: %r' % (e,), 'seconds': 0.0}
+        conn.send(out)
+
+
+def run_jobs(jobs, procs=16):
+    """Run solver jobs on `procs` forked workers; a worker that reports a hang (or dies) is replaced and its job re-queued
+    once in command-line-only mode.  Returns the result dicts in job order."""
+    from multiprocessing.connection import wait as mp_wait
+
+    mp = multiprocessing.get_context('fork')
+
+    def spawn():
+        pc, cc = mp.Pipe()
+        p = mp.Process(target=_worker_loop, args=(cc,), daemon=True)
+        p.start()
+        cc.close()
+        return {'p': p, 'c': pc, 'job': None}
+
+    def retire(w):
+        try:
+            w['p'].kill()
+            w['p'].join(5)
+            w['c'].close()
+        except Exception:
+            pass
+
+    pending = list(jobs)[::-1]
+    results = {}
+    hung = 0
+    workers = [spawn() for _ in range(max(1, min(procs, len(jobs))))]
+    while len(results) < len(jobs):
+        for w in workers:
+            if w['job'] is None and pending:
+                w['job'] = pending.pop()
+                w['c'].send(w['job'])
+        busy = [w for w in workers if w['job'] is not None]
+        ready = mp_wait([w['c'] for w in busy], timeout=1.0)
+        for w in busy:
+            if w['c'] not in ready:
+                continue
+            try:
+                r = w['c'].recv()
+            except (EOFError, OSError):
+                r = None
+            if r is not None and not r.get('hung'):
+                results[r['idx']] = r
+                w['job'] = None
+                continue
+            job = w['job']
+            retire(w)
+            workers[workers.index(w)] = spawn()
+            hung += 1
+            if len(job) > 6 and job[6] == 'cli':
+                results[job[0]] = {'idx': job[0], 'res': 'unknown', 'backend': '', 'detail': 'worker lost twice', 'seconds': 0.0}
+            else:
+                pending.append(tuple(job[:6]) + ('cli',))
+    for w in workers:
+        try:
+            w['c'].send(None)
+        except Exception:
+            pass
+    for w in workers:
+        w['p'].join(2)
+        if w['p'].is_alive():
+            retire(w)
+    return [results[j[0]] for j in jobs]
+
+
 def _solve_worker(job):
-    idx, smt2, expect, z3_ms, cvc5_s, use_cvc5_first = job
+    idx, smt2, expect, z3_ms, cvc5_s, use_cvc5_first = job[:6]
+    if len(job) > 6 and job[6] == 'cli':
+        return _solve_cli_only(job)
     t0 = time.time()
     out = {'idx': idx, 'res': 'unknown', 'backend': '', 'detail': ''}
     if use_cvc5_first and cvc5_s > 0:
@@ -104,7 +277,7 @@ def _solve_worker(job):
         s = z3.Solver()
         s.set('timeout', z3_ms if expect == 'unsat' else min(z3_ms, 5000))
         s.from_string(smt2)
-        r = s.check()
+        r = _guarded_check(s, z3_ms if expect == 'unsat' else min(z3_ms, 5000))
         out['backend'] = 'z3-' + z3.get_version_string()
         if r == z3.unknown and expect == 'unsat':
             # The pool worker's default z3 context is shared by every obligation the worker has solved before, and
@@ -120,7 +293,7 @@ def _solve_worker(job):
                 s.set('timeout', z3_ms)
                 s.set('random_seed', rs)
                 s.from_string(smt2)
-                r = s.check()
+                r = _guarded_check(s, z3_ms)
                 if r != z3.unknown:
                     out['backend'] += ' (fresh context, retry %d after: %s)' % (attempt + 1, first_reason[:60])
                     break
@@ -134,15 +307,20 @@ def _solve_worker(job):
             if expect == 'sat':
                 # satisfiability under quantified hypotheses is not decidable by the solver: re-check the
                 # quantifier-free part of the top-level conjunction (recorded in the backend string)
-                s2 = z3.Solver()
-                s2.set('timeout', min(z3_ms, 5000))
                 fs = z3.parse_smt2_string(smt2)
                 conj = []
                 for f in fs:
                     conj.extend(_flatten_and(f))
                 qf = [c for c in conj if not _has_quantifier(c)]
-                s2.add(*qf)
-                if s2.check() == z3.sat:
+                r2 = z3.unknown
+                for mult in (1, 4):  # the quantifier-free part gets the full budget, then four times it (loaded machine)
+                    s2 = z3.Solver()
+                    s2.set('timeout', mult * z3_ms)
+                    s2.add(*qf)
+                    r2 = _guarded_check(s2, mult * z3_ms)
+                    if r2 != z3.unknown:
+                        break
+                if r2 == z3.sat:
                     out['res'] = 'sat'
                     out['backend'] += ' (quantifier-free part: %d of %d conjuncts)' % (len(qf), len(conj))
                     cvc5_s = 0
@@ -165,7 +343,7 @@ def _solve_worker(job):
                 s.set('timeout', mult * z3_ms)
                 s.set('random_seed', rs)
                 s.from_string(smt2)
-                r = s.check()
+                r = _guarded_check(s, mult * z3_ms)
             except Exception as e:
                 out['detail'] += ' | z3 restart exception: %r' % (e,)
                 break
@@ -274,12 +452,12 @@ def run_cvc5(smt2: str, timeout_s: int, extra=()):
         os.unlink(path)
 
 
-def run_z3_cli(smt2: str, timeout_s: int, binary='/usr/bin/z3'):
+def run_z3_cli(smt2: str, timeout_s: int, binary='/usr/bin/z3', extra=()):
     with tempfile.NamedTemporaryFile('w', suffix='.smt2', delete=False) as f:
         f.write(smt2)
         path = f.name
     try:
-        p = subprocess.run([binary, '-T:%d' % timeout_s, path], capture_output=True, text=True, timeout=timeout_s + 10)
+        p = subprocess.run([binary, '-T:%d' % timeout_s, *extra, path], capture_output=True, text=True, timeout=timeout_s + 10)
         first = (p.stdout.strip().splitlines() or [''])[0].strip()
         if first in ('sat', 'unsat'):
             return first, first
@@ -306,12 +484,7 @@ def discharge(obls: List[Obl], procs: int = 16, z3_ms: int = None, cvc5_s: int =
         jobs.append((i, o.smt2, o.expect, o.info.get('z3_ms', z3_ms), cvc5_s, bool(o.info.get('cvc5_first'))))
     if not jobs:
         return
-    if len(jobs) <= 2 or procs <= 1:
-        results = [_solve_worker(j) for j in jobs]
-    else:
-        ctx = multiprocessing.get_context('fork')
-        with ctx.Pool(min(procs, len(jobs))) as pool:
-            results = pool.map(_solve_worker, jobs, chunksize=1)
+    results = run_jobs(jobs, procs)
     for r in results:
         o = obls[r['idx']]
         o.backend = r['backend']
